@@ -136,6 +136,13 @@ func (s *shutdownContext) createExitedChannel(name string) {
 	s.runtimeDomainExited[name] = make(chan struct{})
 }
 
+// removeExitedChannel forgets the channel of a process that could not be started
+func (s *shutdownContext) removeExitedChannel(name string) {
+	s.runtimeDomainExitedMutex.Lock()
+	defer s.runtimeDomainExitedMutex.Unlock()
+	delete(s.runtimeDomainExited, name)
+}
+
 // Blocks until all the processes in the runtime domain generation have exited.
 // This helps us have a nice sync point on Shutdown where we know for sure that
 // all the processes have exited and the state has been cleared. The exception
